@@ -202,6 +202,12 @@ class Equal(Harness):
         m = choice("m", [n, n + 1] if n < self.maxn else [n])
         ka, kb, kc = self.kinds
         return {"a": mk_col(ka, n, "a", "Vector"), "b": mk_col(kb, n, "b", "Vector"), "c": mk_col(kc, m, "c", "Vector")}
+    def regions(self, inp):
+        # known finding: int64 and float64 vectors are compared with NumPy's ==, i.e. after converting the integers to
+        # float64; integers beyond 2**53 that round to the same float make equal() intransitive
+        if set(self.kinds) != {"i", "f"}: return {}
+        big = [z3.Or(c > 2**53, c < -2**53) for v in (inp["a"], inp["b"], inp["c"]) if kind_of(v) == "i" for c in v.cells]
+        return {"equal-int64-float64-beyond-2**53": z3.Or(big) if big else T(False)}
     def spec(self, inp, out):
         if isinstance(out, Raised): return [(f"does not raise ({out.type}: {out.msg[:60]})", T(False))]
         cl = [("reflexive", T(out["aa"] is True)), ("symmetric", T(out["ab"] == out["ba"])),
@@ -222,6 +228,6 @@ def harnesses(tier):
         hs.append(Build(f, 2 if q else 3))
     for f, d in (("int", "float"), ("float", "float"), ("str", "str"), ("int", "int"), ("bool", "object"), ("int", "object")):
         hs.append(Build(f, 2, d))
-    for ks in [["f", "f", "f"], ["T", "T", "T"], ["i", "i", "i"]] + ([] if q else [["D", "D", "D"], ["b", "b", "b"], ["i", "f", "i"]]):
+    for ks in [["f", "f", "f"], ["T", "T", "T"], ["i", "i", "i"], ["i", "f", "i"]] + ([] if q else [["D", "D", "D"], ["b", "b", "b"], ["f", "i", "f"], ["td", "td", "td"]]):
         hs.append(Equal(ks, 2))
     return hs
